@@ -4,12 +4,67 @@ import (
 	"go/ast"
 	"go/token"
 	"go/types"
+
+	"golang.org/x/tools/go/types/typeutil"
 )
 
 func init() {
 	register(&Rule{ID: "R1.fold-reads-accumulator", Props: []string{"C01"}, Floor: 2,
-		Text: "in the write handlers, a loop that folds the items of one command into an accumulator (acc = acc.M(item), the accumulator having been initialised from the stored state: flist = old.Fields()) never reads that initial expression again inside the loop: every decision about an item is taken against the accumulator, so that a command naming the same field twice behaves like the two single commands in sequence (the sequential model of C01)",
+		Text: "in the write handlers and the helpers they call, a loop that folds the items of one command into an accumulator (acc = acc.M(item), the accumulator having been initialised from the stored state: flist = old.Fields(), or a parameter that receives o.Fields() at the call site) never reads that initial expression again inside the loop — in a helper: never calls the same accessor on the parameter that carries the object the accumulator was taken from: every decision about an item is taken against the accumulator, so that a command naming the same field twice behaves like the two single commands in sequence (the sequential model of C01)",
 		Run:  ruleFoldReadsAccumulator})
+}
+
+// foldLoops: the loops of body with a self-update acc = acc.M(…) of a local or parameter, and the accumulators of each.
+func foldLoops(info *types.Info, root *ast.BlockStmt) map[ast.Node]map[types.Object]bool {
+	out := map[ast.Node]map[types.Object]bool{}
+	inspectNoLit(root, func(n ast.Node) bool {
+		var body *ast.BlockStmt
+		switch l := n.(type) {
+		case *ast.ForStmt:
+			body = l.Body
+		case *ast.RangeStmt:
+			body = l.Body
+		default:
+			return true
+		}
+		inspectNoLit(body, func(m ast.Node) bool {
+			as, ok := m.(*ast.AssignStmt)
+			if !ok || as.Tok != token.ASSIGN || len(as.Lhs) != 1 || len(as.Rhs) != 1 {
+				return true
+			}
+			id, ok := ast.Unparen(as.Lhs[0]).(*ast.Ident)
+			if !ok {
+				return true
+			}
+			call, ok := ast.Unparen(as.Rhs[0]).(*ast.CallExpr)
+			if !ok {
+				return true
+			}
+			se, ok := ast.Unparen(call.Fun).(*ast.SelectorExpr)
+			if !ok {
+				return true
+			}
+			if rid, ok := ast.Unparen(se.X).(*ast.Ident); ok && info.ObjectOf(rid) == info.ObjectOf(id) && info.ObjectOf(id) != nil {
+				if out[n] == nil {
+					out[n] = map[types.Object]bool{}
+				}
+				out[n][info.ObjectOf(id)] = true
+			}
+			return true
+		})
+		return true
+	})
+	return out
+}
+
+func loopBody(n ast.Node) *ast.BlockStmt {
+	switch l := n.(type) {
+	case *ast.ForStmt:
+		return l.Body
+	case *ast.RangeStmt:
+		return l.Body
+	}
+	return nil
 }
 
 func ruleFoldReadsAccumulator(c *Ctx) {
@@ -18,47 +73,65 @@ func ruleFoldReadsAccumulator(c *Ctx) {
 		c.und("engine", 0, "write handlers not available")
 		return
 	}
+	// handlers, and the repository functions they call statically (two levels), each with the call sites that reach it
+	type site struct {
+		caller *FuncInfo
+		call   *ast.CallExpr
+	}
+	sites := map[*types.Func][]site{}
+	var order []*types.Func
+	seen := map[*types.Func]bool{}
+	isHandler := map[*types.Func]bool{}
 	for _, h := range hs {
-		fi := c.FuncOf(h)
-		if fi == nil {
-			continue
-		}
-		info := fi.Info()
-		// loops with a self-update acc = acc.M(…) of a local
-		inspectNoLit(fi.Decl.Body, func(n ast.Node) bool {
-			var body *ast.BlockStmt
-			switch l := n.(type) {
-			case *ast.ForStmt:
-				body = l.Body
-			case *ast.RangeStmt:
-				body = l.Body
-			default:
-				return true
+		seen[h] = true
+		isHandler[h] = true
+		order = append(order, h)
+	}
+	frontier := append([]*types.Func(nil), hs...)
+	for depth := 0; depth < 2; depth++ {
+		var next []*types.Func
+		for _, f := range frontier {
+			fi := c.FuncOf(f)
+			if fi == nil || fi.Decl.Body == nil {
+				continue
 			}
-			accs := map[types.Object]bool{}
-			inspectNoLit(body, func(m ast.Node) bool {
-				as, ok := m.(*ast.AssignStmt)
-				if !ok || as.Tok != token.ASSIGN || len(as.Lhs) != 1 || len(as.Rhs) != 1 {
-					return true
-				}
-				id, ok := ast.Unparen(as.Lhs[0]).(*ast.Ident)
+			info := fi.Info()
+			ast.Inspect(fi.Decl.Body, func(n ast.Node) bool {
+				call, ok := n.(*ast.CallExpr)
 				if !ok {
 					return true
 				}
-				call, ok := ast.Unparen(as.Rhs[0]).(*ast.CallExpr)
-				if !ok {
+				cal, _ := typeutil.Callee(info, call).(*types.Func)
+				if cal == nil || c.FuncOf(cal) == nil || isHandler[cal] {
 					return true
 				}
-				se, ok := ast.Unparen(call.Fun).(*ast.SelectorExpr)
-				if !ok {
-					return true
-				}
-				if rid, ok := ast.Unparen(se.X).(*ast.Ident); ok && info.ObjectOf(rid) == info.ObjectOf(id) {
-					accs[info.ObjectOf(id)] = true
+				sites[cal] = append(sites[cal], site{fi, call})
+				if !seen[cal] {
+					seen[cal] = true
+					order = append(order, cal)
+					next = append(next, cal)
 				}
 				return true
 			})
+		}
+		frontier = next
+	}
+	for _, h := range order {
+		fi := c.FuncOf(h)
+		if fi == nil || fi.Decl.Body == nil {
+			continue
+		}
+		info := fi.Info()
+		params := map[types.Object]int{}
+		if sig, ok := h.Type().(*types.Signature); ok {
+			for i := 0; i < sig.Params().Len(); i++ {
+				params[sig.Params().At(i)] = i
+			}
+		}
+		for loop, accs := range foldLoops(info, fi.Decl.Body) {
+			body := loopBody(loop)
 			for acc := range accs {
+				key := funcName(h) + "/" + acc.Name()
 				// the expressions the accumulator was initialised from, outside the loop
 				var inits []ast.Expr
 				inspectNoLit(fi.Decl.Body, func(m ast.Node) bool {
@@ -84,18 +157,17 @@ func ruleFoldReadsAccumulator(c *Ctx) {
 					return true
 				})
 				// only state-derived initial values matter (a call chain), not a fresh empty value
-				var stateInits []ast.Expr
-				for _, e := range inits {
-					if _, ok := ast.Unparen(e).(*ast.CallExpr); ok {
-						stateInits = append(stateInits, e)
-					}
-				}
-				if len(stateInits) == 0 {
-					continue
-				}
-				key := funcName(h) + "/" + acc.Name()
 				var stale ast.Expr
-				for _, e := range stateInits {
+				var from string
+				nState := 0
+				for _, e := range inits {
+					if _, ok := ast.Unparen(e).(*ast.CallExpr); !ok {
+						continue
+					}
+					nState++
+					if from == "" {
+						from = exprStr(e)
+					}
 					inspectNoLit(body, func(m ast.Node) bool {
 						if x, ok := m.(ast.Expr); ok && stale == nil && sameExpr(info, x, e) {
 							stale = x
@@ -103,13 +175,54 @@ func ruleFoldReadsAccumulator(c *Ctx) {
 						return true
 					})
 				}
+				// a parameter accumulator: initialised by the argument at every call site; the stored state is
+				// X.M() there, and reading it again inside the helper is P.M() on the parameter P that receives X
+				if pi, isParam := params[acc]; isParam {
+					for _, st := range sites[h] {
+						if pi >= len(st.call.Args) {
+							continue
+						}
+						arg, ok := ast.Unparen(st.call.Args[pi]).(*ast.CallExpr)
+						if !ok {
+							continue
+						}
+						nState++
+						if from == "" {
+							from = exprStr(arg) + " at " + c.posStr(st.call.Pos())
+						}
+						ase, ok := ast.Unparen(arg.Fun).(*ast.SelectorExpr)
+						if !ok {
+							continue
+						}
+						cinfo := st.caller.Info()
+						for p, j := range params {
+							if j >= len(st.call.Args) || !sameExpr(cinfo, st.call.Args[j], ase.X) {
+								continue
+							}
+							inspectNoLit(body, func(m ast.Node) bool {
+								call, ok := m.(*ast.CallExpr)
+								if !ok || stale != nil {
+									return true
+								}
+								if se, ok := ast.Unparen(call.Fun).(*ast.SelectorExpr); ok && se.Sel.Name == ase.Sel.Name {
+									if id, ok := ast.Unparen(se.X).(*ast.Ident); ok && info.ObjectOf(id) == p {
+										stale = call
+									}
+								}
+								return true
+							})
+						}
+					}
+				}
+				if nState == 0 {
+					continue
+				}
 				if stale != nil {
 					c.bad(key, stale.Pos(), "inside the loop that folds the command's items into %s, %s is read again: an item is judged against the state before the command instead of the state after its earlier items (a command that names the same field twice no longer equals the two commands in sequence)", acc.Name(), exprStr(stale))
 				} else {
-					c.ok(key, n.Pos(), true, "the fold over the command's items reads only the accumulator %s (initialised from %s)", acc.Name(), exprStr(stateInits[0]))
+					c.ok(key, loop.Pos(), true, "the fold over the command's items reads only the accumulator %s (initialised from %s)", acc.Name(), from)
 				}
 			}
-			return true
-		})
+		}
 	}
 }
